@@ -414,6 +414,15 @@ def fixed_tree_cases():
             if where == "pkg":
                 c["exclude-subpkg-regex"] = lst
             cases.append({"kind": "tree", "i": 9000 + j * 2 + (where == "pkg"), "dirs": fdirs, "pkcfg": {"t": c}, "excl_root": lst if where == "root" else None, "root_recursive": False})
+    # fixed trees: packages with the same package NAME (last path element) and different selection settings, configured explicitly or discovered below
+    # two recursive packages: each is selected with its own settings, whichever of them is looked at first
+    sdirs = {"t": "go", "t/v1": "go", "t/v1/api": "go", "t/v2": "go", "t/v2/api": "go", "t/v3": "go", "t/v3/api": "go", "t/v4/api": "go"}
+    sel = [{"all": True, "structname": "A_{{.InterfaceName}}"}, {"include-interface-regex": "^SvcOne$", "structname": "B_{{.InterfaceName}}"},
+           {"include-interface-regex": "Helper", "structname": "C_{{.InterfaceName}}"}, {"all": True, "exclude-interface-regex": "^Svc", "structname": "D_{{.InterfaceName}}"}]
+    cases.append({"kind": "tree", "i": 9800, "dirs": sdirs, "pkcfg": {"t/v1/api": sel[0], "t/v2/api": sel[1]}, "excl_root": None, "root_recursive": False})
+    cases.append({"kind": "tree", "i": 9801, "dirs": sdirs, "pkcfg": {"t/v%d/api" % (k + 1): sel[k] for k in range(4)}, "excl_root": None, "root_recursive": False})
+    cases.append({"kind": "tree", "i": 9802, "dirs": sdirs, "pkcfg": {"t/v1": dict(sel[0], recursive=True), "t/v2": dict(sel[1], recursive=True), "t/v3": dict(sel[2], recursive=True)},
+                  "excl_root": None, "root_recursive": False})
     return cases
 
 
